@@ -23,17 +23,18 @@ KINDS = ["c-echo", "c-store", "c-find", "c-get", "c-move", "n-create"]
 DS = dp.elem(0x0008, 0x0018, dp.uid_bytes("1.2.3")) + dp.elem(0x0010, 0x0020, b"1 ")
 
 
-def second_request(kind, cx, msg_id=2):
+def second_request(kind, cx, msg_id=2, data_cx=None):
+    """data_cx: the context ID carried by the data-set fragments when a (misbehaving) peer does not
+    keep the whole message on one context; the command set - what the request 'arrives on' - uses cx."""
+    dcx = cx if data_cx is None else data_cx
     if kind == "c-echo":
         return dp.echo_rq(cx, msg_id)
     if kind == "c-store":
-        return dp.pdata(cx, dp.cmd(dp.C_STORE_RQ, dp.CT, msg_id=msg_id, has_ds=True, priority=2, instance="1.2.3")) + dp.pdata(cx, DS, command=False)
-    if kind == "c-find":
-        return dp.find_rq(cx, msg_id)
-    if kind == "c-get":
-        return dp.get_rq(cx, msg_id)
-    if kind == "c-move":
-        return dp.move_rq(cx, msg_id)
+        return dp.pdata(cx, dp.cmd(dp.C_STORE_RQ, dp.CT, msg_id=msg_id, has_ds=True, priority=2, instance="1.2.3")) + dp.pdata(dcx, DS, command=False)
+    if kind in ("c-find", "c-get", "c-move"):
+        field, sop = {"c-find": (dp.C_FIND_RQ, dp.FIND), "c-get": (dp.C_GET_RQ, dp.GET), "c-move": (dp.C_MOVE_RQ, dp.MOVE)}[kind]
+        extra = dp.elem(0, 0x600, b"DEST            ") if kind == "c-move" else b""
+        return dp.pdata(cx, dp.cmd(field, sop, msg_id=msg_id, has_ds=True, priority=2, extra=extra)) + dp.pdata(dcx, dp.identifier(), command=False)
     if kind == "n-create":
         return dp.pdata(cx, dp.cmd(0x0140, "1.2.840.10008.5.1.1.1", msg_id=msg_id, has_ds=False, instance="1.2.3.4"))
     raise ValueError(kind)
@@ -43,9 +44,9 @@ class Pipelined(Scenario):
     max_steps = 60000
     max_time = 40.0
 
-    def __init__(self, kind, cx):
-        self.kind, self.cx = kind, cx
-        self.name = f"pipelined[{kind},cx={cx}]"
+    def __init__(self, kind, cx, data_cx=None):
+        self.kind, self.cx, self.data_cx = kind, cx, data_cx
+        self.name = f"pipelined[{kind},cx={cx}{'' if data_cx is None else ',data-fragments-on-' + str(data_cx)}]"
 
     def build(self, s):
         from pynetdicom import evt
@@ -91,7 +92,7 @@ class Pipelined(Scenario):
         ]
         scen.start_server(s, ae, handlers, max_requests=1)
         PS = ctx["peer"]
-        kind, cx = self.kind, self.cx
+        kind, cx, data_cx = self.kind, self.cx, self.data_cx
 
         def peer_main():
             so = sim.SimSocket()
@@ -118,7 +119,7 @@ class Pipelined(Scenario):
                 for t, body in rd.pdus[seen_pdus:]:
                     if t == 2 and not sent:
                         sent = True
-                        so.send(dp.echo_rq(1, 1) + second_request(kind, cx))
+                        so.send(dp.echo_rq(1, 1) + second_request(kind, cx, data_cx=data_cx))
                     elif t == 7:
                         PS["abort"] = True
                 seen_pdus = len(rd.pdus)
@@ -162,6 +163,12 @@ def scenarios(quick):
         ids = range(256) if (not quick or kind in ("c-echo", "c-store")) else (0, 1, 2, 3, 5, 7, 254, 255)
         for cx in ids:
             out.append(Pipelined(kind, cx))
+    # a peer that does not keep a message on one context: command set on a non-accepted ID, data-set
+    # fragments on an accepted one
+    for kind in ("c-store", "c-find", "c-get", "c-move"):
+        for cx in ((0, 2, 3, 7, 255) if quick else [i for i in range(256) if i not in ACCEPTED]):
+            for dcx in sorted(ACCEPTED):
+                out.append(Pipelined(kind, cx, data_cx=dcx))
     return out
 
 
@@ -177,11 +184,11 @@ def run_layer(ctx: core.Ctx):
         for k, (what, pfx) in r["viols"].items():
             if k not in seen:
                 seen.add(k)
-                viol.append(core.Violation(k, what, {"item": ["pipelined", scn.kind, scn.cx]}))
+                viol.append(core.Violation(k, what, {"item": ["pipelined", scn.kind, scn.cx, scn.data_cx]}))
     return viol, {"pipelined_scenarios": len(scns), "pipelined_executions": execs, "pipelined_distinct_outcomes": len(outcomes)}
 
 
-def replay_item(kind, cx):
-    r = explore.execute(Pipelined(kind, cx), (), want_obs=False)
+def replay_item(kind, cx, data_cx=None):
+    r = explore.execute(Pipelined(kind, cx, data_cx), (), want_obs=False)
     print(r["why"], r["summary"], r["viol"])
     return 1 if r["viol"] else 0
